@@ -239,6 +239,19 @@ func (db *SpecDB) parseClause(e *Engine, fs *FuncSpec, cl specLine) {
 			return
 		}
 		c := Clause{Label: label, E: ex, Text: body, Pos: cl.pos}
+		if kw == "ensures" {
+			// a top-level conjunction becomes one obligation per conjunct (label.k): smaller
+			// goals for the solver and a precise name for whatever fails
+			if parts := conjuncts(ex); len(parts) > 1 {
+				if label == "" {
+					label = fmt.Sprint(len(fs.Ensures) + 1)
+				}
+				for i, p := range parts {
+					fs.Ensures = append(fs.Ensures, Clause{Label: fmt.Sprintf("%s.%d", label, i+1), E: p, Text: p.String(), Pos: cl.pos})
+				}
+				return
+			}
+		}
 		if kw == "requires" {
 			if c.Label == "" {
 				c.Label = fmt.Sprint(len(fs.Requires) + 1)
@@ -272,6 +285,12 @@ func (db *SpecDB) parseClause(e *Engine, fs *FuncSpec, cl specLine) {
 		case "invariant":
 			if label == "" {
 				label = fmt.Sprint(len(fs.LoopInv[n]) + 1)
+			}
+			if parts := conjuncts(ex); len(parts) > 1 {
+				for i, p := range parts {
+					fs.LoopInv[n] = append(fs.LoopInv[n], Clause{Label: fmt.Sprintf("%s.%d", label, i+1), E: p, Text: p.String(), Pos: cl.pos})
+				}
+				return
 			}
 			fs.LoopInv[n] = append(fs.LoopInv[n], Clause{Label: label, E: ex, Text: body, Pos: cl.pos})
 		case "decreases":
@@ -347,6 +366,14 @@ func (db *SpecDB) parseClause(e *Engine, fs *FuncSpec, cl specLine) {
 	default:
 		fail(fmt.Errorf("unknown clause keyword %q", kw))
 	}
+}
+
+// conjuncts flattens a top-level && chain.
+func conjuncts(e Expr) []Expr {
+	if b, ok := e.(*EBinary); ok && b.Op == "&&" {
+		return append(conjuncts(b.X), conjuncts(b.Y)...)
+	}
+	return []Expr{e}
 }
 
 func splitTopLevel(s string, sep rune) []string {
